@@ -1,0 +1,39 @@
+//go:build verif
+
+// Contracts read by the verification tooling in /verif (build tag "verif"; comment-only).
+package marching
+
+// C10 (canvas part): while fields are added in parallel the chunk tables of the canvas are shared between
+// the workers.  chunkIndex_atomic may append to them, so every read or write of float1Data / float2Data /
+// float3Data in the functions the workers run - including the copy of the whole canvas that calling a
+// value-receiver method makes - must happen while the worker holds chunkMutex (ghost flag held()).
+// "guardedfields <lock>: names" makes each such access an obligation guard.field[name].
+
+//@ func MarchingCanvas.index pure
+//@   props C10
+
+//@ func MarchingCanvas.chunkIndex_atomic
+//@   props C10
+//@   modifies *
+//@   requires d != nil && d.chunkMutex != nil && !held(d.chunkMutex)
+//@   ensures same_lock_released: d.chunkMutex == old(d.chunkMutex) && !held(d.chunkMutex)
+//@   guardedfields d.chunkMutex: float1Data, float2Data, float3Data
+//@   unclaimed safe.index: bounds of the chunk tables are not part of the lock discipline
+//@   unclaimed safe.nilmap: the positions map is created with the section
+//@   unclaimed safe.slicebounds: not part of the lock discipline
+
+//@ func MarchingCanvas.addFloat1Range
+//@   props C10
+//@   modifies *
+//@   callback function: pure
+//@   requires d != nil && d.chunkMutex != nil && !held(d.chunkMutex)
+//@   guardedfields d.chunkMutex: float1Data, float2Data, float3Data
+//@   unclaimed safe.index: bounds of the chunk tables are not part of the lock discipline
+//@   unclaimed safe.nilmap: the positions map is created with the section
+//@   unclaimed safe.slicebounds: not part of the lock discipline
+//@   loop 1:
+//@     invariant d != nil && !held(d.chunkMutex)
+//@   loop 2:
+//@     invariant d != nil && !held(d.chunkMutex)
+//@   loop 3:
+//@     invariant d != nil && !held(d.chunkMutex)
